@@ -58,6 +58,7 @@ fn gen(prop: &str, seed: u64, thorough: bool, count: Option<usize>) -> Vec<Value
         "C01" => for i in 0..n(300, 6000) { let mut rr = r.fork(); out.push(gen_store::gen_c01(&mut rr, i as u64, thorough)); },
         "C04" => for i in 0..n(300, 6000) { let mut rr = r.fork(); out.push(gen_store::gen_c04(&mut rr, i as u64, thorough)); },
         "C05" => for i in 0..n(150, 3000) { let mut rr = r.fork(); out.push(gen_store::gen_c05(&mut rr, i as u64, thorough)); },
+        "C06" => for i in 0..n(200, 3000) { let mut rr = r.fork(); out.push(gen_store::gen_c06(&mut rr, i as u64, thorough)); },
         "C07" => for i in 0..n(200, 4000) { let mut rr = r.fork(); out.push(gen_store::gen_c07(&mut rr, i as u64, thorough)); },
         "C16" => for i in 0..n(120, 1500) { let mut rr = r.fork(); out.push(gen_store::gen_c16(&mut rr, i as u64, page_size(), thorough)); },
         "C17" => for i in 0..n(300, 4000) { let mut rr = r.fork(); out.push(gen_store::gen_c17(&mut rr, i as u64, thorough)); },
